@@ -793,24 +793,55 @@ func checkAuthentication(validCredentials []Credentials, expectedRegion string, 
 			slog.DebugContext(r.Context(), "Streaming payload algorithm does not match request signature algorithm")
 			return nil, false
 		}
-		// aws-chunked is a transport encoding, not object metadata: strip it
-		// whether it is the only encoding or the first of several.
-		contentEncodingHeader = stripAwsChunkedContentEncoding(contentEncodingHeader)
-		if contentEncodingHeader != "" {
-			r.Header.Set("Content-Encoding", contentEncodingHeader)
-		} else {
-			r.Header.Del("Content-Encoding")
-		}
-		r.Header.Set("Content-Length", r.Header.Get("x-amz-decoded-content-length"))
-		r.Header.Del("x-amz-decoded-content-length")
-		trailingHeader := contentSHA256 == contentSHA256StreamingUnsignedPayloadTrailing || contentSHA256 == contentSHA256StreamingPayloadTrailing || contentSHA256 == contentSHA256StreamingECDSAPayloadTrailing
-		hasTrailingHeaderWithSignature := contentSHA256 == contentSHA256StreamingPayloadTrailing || contentSHA256 == contentSHA256StreamingECDSAPayloadTrailing
-		skipChunkValidation := contentSHA256 == contentSHA256StreamingUnsignedPayloadTrailing || contentSHA256 == contentSHA256StreamingUnsignedPayload
-		trailerChecksumName := strings.ToLower(strings.TrimSpace(r.Header.Get(trailerHeader)))
-		r.Body = newAwsChunkReadCloser(r.Context(), r.Body, parameters.timestamp, scope.value, parameters.signature, verifier, trailingHeader, hasTrailingHeaderWithSignature, skipChunkValidation, trailerChecksumName)
+		installAwsChunkReader(r, contentEncodingHeader, parameters.timestamp, scope.value, parameters.signature, verifier, true)
 	}
 
 	return &accessKeyId, isSignatureValid
+}
+
+// installAwsChunkReader replaces the body of an aws-chunked request by the
+// decoded payload and rewrites the framing headers. With verifySignatures the
+// chunk and trailer signatures are checked against the seed signature;
+// without it (no credentials to check them against) only the framing is
+// removed and a declared checksum trailer is validated.
+func installAwsChunkReader(r *http.Request, contentEncodingHeader string, timestamp string, scope string, seedSignature string, verifier signatureVerifier, verifySignatures bool) {
+	contentSHA256 := r.Header.Get(contentSHA256Header)
+	// aws-chunked is a transport encoding, not object metadata: strip it
+	// whether it is the only encoding or the first of several.
+	contentEncodingHeader = stripAwsChunkedContentEncoding(contentEncodingHeader)
+	if contentEncodingHeader != "" {
+		r.Header.Set("Content-Encoding", contentEncodingHeader)
+	} else {
+		r.Header.Del("Content-Encoding")
+	}
+	r.Header.Set("Content-Length", r.Header.Get("x-amz-decoded-content-length"))
+	r.Header.Del("x-amz-decoded-content-length")
+	trailingHeader := contentSHA256 == contentSHA256StreamingUnsignedPayloadTrailing || contentSHA256 == contentSHA256StreamingPayloadTrailing || contentSHA256 == contentSHA256StreamingECDSAPayloadTrailing
+	hasTrailingHeaderWithSignature := verifySignatures && (contentSHA256 == contentSHA256StreamingPayloadTrailing || contentSHA256 == contentSHA256StreamingECDSAPayloadTrailing)
+	skipChunkValidation := !verifySignatures || contentSHA256 == contentSHA256StreamingUnsignedPayloadTrailing || contentSHA256 == contentSHA256StreamingUnsignedPayload
+	trailerChecksumName := strings.ToLower(strings.TrimSpace(r.Header.Get(trailerHeader)))
+	r.Body = newAwsChunkReadCloser(r.Context(), r.Body, timestamp, scope, seedSignature, verifier, trailingHeader, hasTrailingHeaderWithSignature, skipChunkValidation, trailerChecksumName)
+}
+
+// decodeUnauthenticatedAwsChunkedBody removes the aws-chunked framing of a
+// request that does not pass signature verification (authentication disabled,
+// or an anonymous request), so that the object stored is the payload and not
+// the chunk headers, signatures and trailers around it.
+func decodeUnauthenticatedAwsChunkedBody(r *http.Request) {
+	contentEncodingHeader := r.Header.Get("Content-Encoding")
+	if !hasAwsChunkedContentEncoding(contentEncodingHeader) {
+		return
+	}
+	installAwsChunkReader(r, contentEncodingHeader, "", "", "", signatureVerifier{}, false)
+}
+
+// MakeAwsChunkedDecodingMiddleware decodes aws-chunked request bodies when no
+// signature middleware is installed (authentication disabled).
+func MakeAwsChunkedDecodingMiddleware(next http.Handler) http.Handler {
+	return http.HandlerFunc(func(w http.ResponseWriter, r *http.Request) {
+		decodeUnauthenticatedAwsChunkedBody(r)
+		next.ServeHTTP(w, r)
+	})
 }
 
 type awsChunkReadCloser struct {
@@ -1060,6 +1091,7 @@ func MakeSignatureMiddleware(validCredentials []Credentials, region string, next
 			ctx := context.WithValue(r.Context(), IsAuthenticatedContextKey{}, false)
 			ctx = context.WithValue(ctx, AuthTypeContextKey{}, authTypeForRequest(r))
 			r = r.Clone(ctx)
+			decodeUnauthenticatedAwsChunkedBody(r)
 			next.ServeHTTP(w, r)
 			return
 		}
